@@ -535,8 +535,12 @@ class ConfigLoader(BaseConfig):
                     if isinstance(arg_i, Variable):
                         arg_i.sameas(arg)
 
-    @functools.lru_cache()
     def _get_model(self, vm=None, name=""):
+        # one model per data set: the number of data sets is part of the cache key
+        return self._get_model_cached(vm, name, self._Ngroup)
+
+    @functools.lru_cache()
+    def _get_model_cached(self, vm, name, n_group):
         amp = self.get_amplitude(vm=vm, name=name)
         model_name = self.config["data"].get("model", "auto")
         w_bkg, w_inmc = self._get_bg_weight()
